@@ -60,6 +60,10 @@ def check_op(sc, obs, opi, add):
     numpy_in = op.get('input') == 'nd'
     ok = o.get('outcome') == 'ok'
     full = ok and (op['op'] in ('map', 'map_unordered') or op.get('consume', 'all') == 'all')
+    # a task whose argument could not be recognised (e.g. it was given to a function of another call) counts as index -1
+    for c in tasks:
+        if c[5] is None:
+            c[5] = -1
     entered = collections.Counter(c[5] for c in tasks)
 
     # ---- C02 ----
@@ -269,7 +273,7 @@ def check_failure_op(sc, obs, opi, add, latency_bound=None):
     f = op['fail']
     will_fail = bool(f.get('at')) or f.get('init') or f.get('exit')
     tasks = [c for c in obs.get('calls', []) if c[0] == opi and c[1] == 'task']
-    raised = obs.get('raised', [])
+    raised = [r for r in obs.get('raised', []) if r.get('opi', opi) == opi]      # only what user functions raised in THIS call
     if o.get('outcome') == 'ok':
         reached = any(c[5] in f.get('at', ()) for c in tasks) or any(c[1] in ('init', 'exit') and c[7] is None for c in obs.get('calls', []) if c[0] == opi)
         if reached and op.get('consume', 'all') == 'all':
